@@ -152,6 +152,7 @@ __CPROVER_ensures(h != gh_RH ==> T_SAME)                                        
 __CPROVER_ensures(T._sub == __CPROVER_old(rg_trk._sub) && T._awt == __CPROVER_old(rg_trk._awt) && T._used == __CPROVER_old(rg_trk._used) && T._kicked == __CPROVER_old(rg_trk._kicked))
 __CPROVER_ensures((h == gh_RH && __CPROVER_return_value == 0) ==> (T._pos == __CPROVER_old(rg_trk._pos) && (T._kicked || (T._pos + 1 == POS && !CLOSED))))   /* "not ready" only if kicked, or nothing new and not closed */
 __CPROVER_ensures((h == gh_RH && __CPROVER_return_value == 1) ==> (!T._kicked && T._pos > __CPROVER_old(rg_trk._pos) && T._pos <= POS))                   /* forward only */
+__CPROVER_ensures((h == gh_RH && __CPROVER_return_value == 1) ==> (T._pos < POS || CLOSED))                                                                    /* "ready" only if an item is there, or the stream is closed (end-of-stream is then reported by get_value_lk) */
 __CPROVER_ensures((h == gh_RH && __CPROVER_return_value == 1 && ALL_VALUES(t)) ==> T._pos == __CPROVER_old(rg_trk._pos) + 1)                                /* all_values: exactly the next position */
 __CPROVER_ensures((h == gh_RH && __CPROVER_return_value == 1 && t == 1) ==> T._pos == MAX2(__CPROVER_old(rg_trk._pos) + 1, POS - dq_len))                  /* skip_if_behind: next, or oldest retained */
 __CPROVER_ensures((h == gh_RH && __CPROVER_return_value == 1 && t == 2) ==> T._pos == MAX2(__CPROVER_old(rg_trk._pos) + 1, POS - 1))                       /* skip_to_recent: the newest */
@@ -214,6 +215,7 @@ __CPROVER_ensures((h == gh_RH && t == 2 && OPT_ENG(__CPROVER_return_value) && gh
 #define LOCK_ASSIGNS gh_lock_held, gh_lock_depth, gh_n_lock, gh_n_unlock
 cv_i64 gh_pos0, gh_len0, gh_cnt;      /* push_lk: logical variables for the entry values of _pos, |_q| and the argument count   */
 cv_i8 gh_ret0;                        /* push_lk: retention held for the tracked slot before the items were pushed              */
+cv_i8 gh_parked;                      /* protocol units: this thread's coroutine is suspended on its (parked) awaiter  */
 cv_i32 gh_n_unlock_chk;               /* number of releases at which the obligations were checked                               */
 #define C16_ASSERT_INV(why) \
   __CPROVER_assert(Q_CFG, why ": configuration min >= 1, max >= min untouched, closed is a bool"); \
@@ -248,6 +250,7 @@ void c16_rely(QT *this_) {
   __CPROVER_assume(k < PS_BIG && POS + k < PS_BIG);
   __CPROVER_assume(cl <= 1 && cl >= CLOSED && ki <= 1);
   cv_i1 event = (k > 0 || cl != CLOSED) ? 1 : 0;
+  cv_i1 parked = (mine && T._awt != 0) ? 1 : 0;
   POS += k; dq_front += k; CLOSED = cl;
   dq_len = nl; __CPROVER_assume(dq_len <= POS - 1 && Q_MINMAX && dq_front + 1 - dq_len >= low0);
   { cv_i32 v = (cv_i32)nondet_unsigned(); if (DQ_INWIN(gh_P)) v = gh_sval; dq_trk = v; }   /* == gh_stream[gh_P] whenever retained */
@@ -256,6 +259,10 @@ void c16_rely(QT *this_) {
   if (mine) {
     if (ki >= T._kicked && ki != T._kicked) { T._kicked = ki; event = 1; }
     if (event) T._awt = 0;                                      /* whoever publishes / closes / kicks wakes the parked awaiter */
+#ifdef C16_PARKED_FLAG
+    if (C16_PARKED_FLAG) { __CPROVER_assume(!parked || event); C16_PARKED_FLAG = 0; }   /* wake-up assumption: a suspended coroutine runs again only after
+                                                                   its awaiter was resumed, i.e. after a publish, close or kick that found it parked */
+#endif
     __CPROVER_assume(NFREE != gh_RH);
     __CPROVER_assume(ret0 ==> T_RET);
   } else {                                                      /* a slot nobody owns may be handed to a new subscriber */
